@@ -28,9 +28,10 @@ Linked(hop, p, c) ==
     [] hop.kind = "belongs" -> KeyEq(p.bfk, c.id)
     [] hop.kind = "m2m"     -> \E k \in DOMAIN hop.links : KeyEq(hop.links[k][1], p.id) /\ KeyEq(hop.links[k][2], c.id)
 
-\* condition on the rows of the LAST level: [on |-> BOOLEAN, gt |-> Int, eq |-> Int]
-\*   v > gt   or, when eq >= 0,   v > gt OR v = eq
-CondOK(cond, r) == ~cond.on \/ r.v > cond.gt \/ (cond.eq >= 0 /\ r.v = cond.eq)
+\* condition on the rows of the LAST level: [on |-> BOOLEAN, gt |-> Int, eq |-> Int, ne |-> Int]
+\*   v > gt   or, when eq >= 0,   v > gt OR v = eq ;   when ne >= 0 a second condition v <> ne is AND-ed
+\*   (conditions given with clause.Associations plus conditions given for the relation itself)
+CondOK(cond, r) == ~cond.on \/ ((r.v > cond.gt \/ (cond.eq >= 0 /\ r.v = cond.eq)) /\ (cond.ne < 0 \/ r.v # cond.ne))
 
 \* rows of level i+1 attached to row p of level i
 Children(levels, hops, i, p, unscoped, cond) ==
